@@ -324,6 +324,38 @@ func c07universe(thorough bool) []*E {
 			}
 		}
 	}
+	// Variants whose problematic entries carry another message (same kind, same position).
+	var hasP func(e *E) bool
+	hasP = func(e *E) bool {
+		if e == nil {
+			return false
+		}
+		if e.Kind == core.EntryKind_Problematic {
+			return true
+		}
+		for _, c := range e.Contents {
+			if hasP(c) {
+				return true
+			}
+		}
+		return false
+	}
+	var retitle func(e *E)
+	retitle = func(e *E) {
+		if e.Kind == core.EntryKind_Problematic {
+			e.Problem = "q"
+		}
+		for _, c := range e.Contents {
+			retitle(c)
+		}
+	}
+	for _, t := range base.Endpoints {
+		if hasP(t) {
+			q := clone(t)
+			retitle(q)
+			trees = append(trees, q)
+		}
+	}
 	// An executable file so Copy/Equal see the bit.
 	trees = append(trees, dir("a", file(1, true)), file(1, true))
 	return trees
